@@ -1,0 +1,8 @@
+//go:build !verif
+
+package memidm
+
+import "sync"
+
+// verifYield is a no-op unless the package is built with the verif tag.
+func verifYield(*sync.RWMutex, bool) {}
